@@ -5,6 +5,7 @@ import Kopf.Model.C14_Resume
 import Kopf.Lemmas.C14_Resume
 import Kopf.Lemmas.C14_Step
 import Kopf.Lemmas.C14_Results
+import Kopf.Lemmas.C14_Memories
 namespace Kopf.C14
 open Kopf Kopf.C02
 
@@ -858,5 +859,111 @@ example :
     ("r", 0) ∈ s.invoked ∧ (e.exec "r" 0).final = true ∧ deliveryRaises [dt] = false ∧ wireRaises [dt] = true ∧
       s.mem = some { noticed := some true, fullyHandled := true, resumed := [] } := by
   refine ⟨by decide, by decide, by decide, by decide, by decide⟩
+
+/-! ### One container for all the objects of the operator (seed C14h)
+
+`inventory.ResourceMemories` is ONE dictionary per operator process, shared by every kind and namespace served; an
+object's memory is found by `_build_key` and by nothing else. The theorems above are about one object's own history;
+these carry them over to the operator process as a whole: whatever is processed for the OTHER objects, whenever, an
+object's own history reads as if it were alone. -/
+
+/-- PROJECTION, unguarded: in any history of the whole operator process — the events of all its objects interleaved in
+    any way, every one with its own view of the stored progress — what is invoked for the object remembered under `k`
+    is what the per-object model (`runViews`) invokes on that object's own events, from the memory the container had
+    for it at the beginning. The other objects (other kinds, namespaces, alike-named or not, re-created, deleted,
+    re-listed) do not show. -/
+theorem crowd_projection (declsOf : String → List Decl) (k : String) :
+    ∀ (as : List Arrival) (M : Memories),
+      invokedOf k (runAll declsOf M as) = runViews (declsOf k) (M.get k) (viewsOf k as) := by
+  intro as
+  induction as with
+  | nil => intro M; rfl
+  | cons a rest ih =>
+    intro M
+    by_cases hk : (buildKey a.obj == k) = true
+    · have hk' : buildKey a.obj = k := by simpa using hk
+      simp only [runAll, stepAt, invokedOf, viewsOf, List.filter_cons, hk, if_true, List.map_cons, runViews]
+      rw [hk']
+      congr 1
+      have := ih (M.put k (step (declsOf k) (M.get k) a.P a.e).mem)
+      simp only [invokedOf, viewsOf, get_put_same] at this
+      rw [← hk'] at this ⊢
+      exact this
+    · have hk' : (buildKey a.obj == k) = false := by simpa using hk
+      have hkk : (k == buildKey a.obj) = false := by
+        cases hh : (k == buildKey a.obj)
+        · rfl
+        · have : k = buildKey a.obj := by simpa using hh
+          rw [this] at hk'; simp at hk'
+      simp only [runAll, stepAt, invokedOf, viewsOf, List.filter_cons, hk', Bool.false_eq_true, if_false]
+      have := ih (M.put (buildKey a.obj) (step (declsOf (buildKey a.obj)) (M.get (buildKey a.obj)) a.P a.e).mem)
+      simp only [invokedOf, viewsOf, get_put_other _ _ _ _ hkk] at this
+      exact this
+
+/-- THE SECOND CLAUSE FOR THE WHOLE OPERATOR PROCESS, unguarded: after the processed event in which a resume handler
+    reached a final outcome for an object, it is never invoked again for that object in this process — whatever is
+    processed afterwards for this object (short of its DELETED event) AND FOR ANY OTHER OBJECT of the operator, of any
+    kind, namespace and name, their deletions and re-creations included, in any interleaving. -/
+theorem completed_never_again_crowd (declsOf : String → List Decl) (M : Memories) (a : Arrival) (d : Decl)
+    (hd : d ∈ declsOf (buildKey a.obj))
+    (hres : ∀ d' ∈ declsOf (buildKey a.obj), d'.id = d.id → d'.gate.initial = true)
+    (hde : a.e.deleted = false) (n : Nat)
+    (hinv : (d.id, n) ∈ (stepAt declsOf M a).2) (hfin : (a.e.exec d.id n).final = true)
+    (rest : List Arrival) (hdel : ∀ b ∈ rest, buildKey b.obj = buildKey a.obj → b.e.deleted = false) :
+    ∀ l ∈ invokedOf (buildKey a.obj) (runAll declsOf (stepAt declsOf M a).1 rest), ∀ j, (d.id, j) ∉ l := by
+  rw [crowd_projection]
+  simp only [stepAt, get_put_same]
+  refine completed_never_again (declsOf (buildKey a.obj)) d hd hres (M.get (buildKey a.obj)) a.P a.e hde n hinv hfin _ ?_
+  intro ep hep
+  simp only [viewsOf, List.mem_map, List.mem_filter] at hep
+  obtain ⟨b, ⟨hb, hbk⟩, rfl⟩ := hep
+  exact hdel b hb (by simpa using hbk)
+
+/-- … and nothing at all once the object is fully handled (re-listings of its own kind or of any other, reconnects,
+    later changes, namesakes coming and going): the whole-process form of `after_fully_handled_never`'s premise is kept
+    by the container — the memory found for the object is the one its last event left. -/
+theorem memory_kept_across_others (declsOf : String → List Decl) (M : Memories) (a : Arrival) (k : String)
+    (h : (k == buildKey a.obj) = false) : ((stepAt declsOf M a).1).get k = M.get k := by
+  simp only [stepAt, get_put_other _ _ _ _ h]
+
+/-- The changed variant (seed C14h: an index (namespace, name) → latest key; remembering a NEW key drops the memory
+    kept under the same name): FAILS the clause. A KopfExample and a KopfSibling named alike in one namespace, both
+    handled before; the operator starts (both listed: each resumed once), then each kind is re-listed on its own:
+    the resume handlers run to completion again and again. The container as it is (`runAll`) resumes each once.
+    (Replayed on the real code: corpus/C14/H1_two_kinds_named_alike_relisted.json must pass.) -/
+theorem namesake_index_variant_witness :
+    let ok : Outcome := { final := true, delay := none, error := false, subrefs := [] }
+    let e : Event :=
+      { byListing := true, deleted := false, marked := false, blocked := false, oldAbsent := false,
+        diffNonEmpty := false, suppressed := false, matchF := fun _ => true,
+        limits := fun _ => ⟨none, none⟩, lifecycle := .allAtOnce, now := 0, now1 := 0, exec := fun _ _ => ok }
+    let parent : Ident := ⟨some "uid-1", some "KopfExample", some "kopf.dev/v1", some "webshop", some "ns", none⟩
+    let child : Ident := ⟨some "uid-2", some "KopfSibling", some "kopf.dev/v1", some "webshop", some "ns", none⟩
+    let declsOf : String → List Decl := fun k => if k = "uid-1" then [⟨"r0", ⟨none, true, false⟩⟩] else [⟨"x0", ⟨none, true, false⟩⟩]
+    let history : List Arrival := [⟨parent, fun _ => none, e⟩, ⟨child, fun _ => none, e⟩,
+                                   ⟨parent, fun _ => none, e⟩, ⟨child, fun _ => none, e⟩, ⟨parent, fun _ => none, e⟩]
+    runAll declsOf [] history
+      = [("uid-1", [("r0", 0)]), ("uid-2", [("x0", 0)]), ("uid-1", []), ("uid-2", []), ("uid-1", [])] ∧
+    runAllN nsName declsOf ⟨[], []⟩ history
+      = [("uid-1", [("r0", 0)]), ("uid-2", [("x0", 0)]), ("uid-1", [("r0", 0)]), ("uid-2", [("x0", 0)]), ("uid-1", [("r0", 0)])] ∧
+    -- with distinct names the variant behaves
+    runAllN nsName declsOf ⟨[], []⟩ (history.map (fun a => if a.obj.uid = some "uid-2" then { a with obj := { a.obj with name := some "webshop-db" } } else a))
+      = [("uid-1", [("r0", 0)]), ("uid-2", [("x0", 0)]), ("uid-1", []), ("uid-2", []), ("uid-1", [])] := by
+  refine ⟨by decide, by decide, by decide⟩
+
+-- non-vacuity of `completed_never_again_crowd`: the first event of the history above meets the hypotheses
+example :
+    let ok : Outcome := { final := true, delay := none, error := false, subrefs := [] }
+    let e : Event :=
+      { byListing := true, deleted := false, marked := false, blocked := false, oldAbsent := false,
+        diffNonEmpty := false, suppressed := false, matchF := fun _ => true,
+        limits := fun _ => ⟨none, none⟩, lifecycle := .allAtOnce, now := 0, now1 := 0, exec := fun _ _ => ok }
+    let parent : Ident := ⟨some "uid-1", some "KopfExample", some "kopf.dev/v1", some "webshop", some "ns", none⟩
+    let declsOf : String → List Decl := fun _ => [⟨"r0", ⟨none, true, false⟩⟩]
+    ("r0", 0) ∈ (stepAt declsOf [] ⟨parent, fun _ => none, e⟩).2 ∧ (e.exec "r0" 0).final = true ∧
+      buildKey parent = "uid-1" ∧
+      -- objects without a uid are kept apart by kind, version, name, namespace and creation time
+      buildKey ⟨none, some "ComponentStatus", some "v1", some "scheduler", none, none⟩ = "ComponentStatus//v1//scheduler//-//-" := by
+  refine ⟨by decide, by decide, by decide, by decide⟩
 
 end Kopf.C14
